@@ -10,6 +10,8 @@ import (
 	"hash/crc32"
 	"io"
 	"math/rand"
+	"runtime"
+	"runtime/debug"
 	"sort"
 	"strings"
 
@@ -32,8 +34,23 @@ type piece struct {
 	C bool `json:"c,omitempty"` // compressed chunk (else uncompressed)
 }
 
+type hlist struct {
+	Start   uint64   `json:"start"`
+	Pattern []uint64 `json:"pattern"`
+	Reps    int      `json:"reps"`
+}
+
+type hevent struct {
+	New     *int    `json:"new,omitempty"`     // decodePostings(list)
+	Next    *[2]int `json:"next,omitempty"`    // decoder, number of Next calls
+	Exhaust *int    `json:"exhaust,omitempty"` // decoder
+	Close   *int    `json:"close,omitempty"`   // decoder
+}
+
 type input struct {
-	Kind   string   `json:"kind"` // round | split | seek
+	Lists []hlist  `json:"lists,omitempty"` // hist
+	Evs   []hevent `json:"evs,omitempty"`   // hist
+	Kind   string   `json:"kind"` // round | split | seek | hist
 	L      []uint64 `json:"l"`
 	Pieces []piece  `json:"pieces,omitempty"` // split: framing chosen by the harness
 	Prog   []op     `json:"prog,omitempty"`   // seek, big
@@ -79,6 +96,30 @@ func facts(repo string, w io.Writer) error {
 		qs[i] = common.CoqString(x)
 	}
 	fmt.Fprintf(w, "Definition readNextChunkDbBAssigns : list string := [%s]%%string.\n", strings.Join(qs, "; "))
+	// close() of the streamed decoder: what it tests, what it calls, and that it assigns nothing
+	cevs, err := s.CallOrder("streamedDiffVarintPostings.close")
+	if err != nil {
+		return err
+	}
+	fmt.Fprintln(w, common.EventsCoq("sdCloseEvents", cevs))
+	cf, err := s.FindFunc("streamedDiffVarintPostings.close")
+	if err != nil {
+		return err
+	}
+	var cAssigns []string
+	ast.Inspect(cf.Body, func(n ast.Node) bool {
+		if as, ok := n.(*ast.AssignStmt); ok {
+			for _, l := range as.Lhs {
+				cAssigns = append(cAssigns, s.ExprString(l))
+			}
+		}
+		return true
+	})
+	qc := make([]string, len(cAssigns))
+	for i, x := range cAssigns {
+		qc[i] = common.CoqString(x)
+	}
+	fmt.Fprintf(w, "Definition sdCloseAssigns : list string := [%s]%%string.\n", strings.Join(qc, "; "))
 	e, err := s.RHS("diffVarintSnappyStreamedEncode", "uvarintSize")
 	if err != nil {
 		return err
@@ -298,6 +339,9 @@ func run(rawIn json.RawMessage) (common.Case, error) {
 		return common.Case{}, err
 	}
 	var c common.Case
+	if in.Kind == "hist" {
+		return runHist(in)
+	}
 	if in.Kind == "big" {
 		cur := in.Start
 		in.L = nil
@@ -518,6 +562,128 @@ func run(rawIn json.RawMessage) (common.Case, error) {
 	return c, fmt.Errorf("bad kind %q", in.Kind)
 }
 
+// runHist: a history of pooled streamed decoders (decodePostings with pooling on).
+func runHist(in input) (common.Case, error) {
+	var c common.Case
+	runtime.GOMAXPROCS(1)
+	defer debug.SetGCPercent(debug.SetGCPercent(-1))
+	runtime.LockOSThread()
+	defer runtime.UnlockOSThread()
+	_, hdrS := store.VerifC12CodecHeaders()
+	var lists [][]uint64
+	var encs [][]byte
+	var listsCoq []string
+	compressed := 0
+	for _, hl := range in.Lists {
+		var l []uint64
+		cur := hl.Start
+		for i := 0; i < hl.Reps; i++ {
+			for _, d := range hl.Pattern {
+				cur += d
+				l = append(l, cur)
+			}
+		}
+		enc, err := store.VerifC12DiffVarintSnappyStreamedEncode(index.NewListPostings(refs(l)), len(l))
+		if err != nil {
+			return c, fmt.Errorf("encode: %w", err)
+		}
+		// count compressed data chunks: only those use the pooled decode buffer
+		for b := enc[len(hdrS):]; len(b) >= 4; {
+			n := int(b[1]) | int(b[2])<<8 | int(b[3])<<16
+			if b[0] == 0x00 {
+				compressed++
+			}
+			if len(b) < 4+n {
+				break
+			}
+			b = b[4+n:]
+		}
+		lists = append(lists, l)
+		encs = append(encs, enc)
+		listsCoq = append(listsCoq, common.Tuple(common.N(hl.Start), nlist(hl.Pattern), common.N(uint64(hl.Reps))))
+	}
+	type dec struct {
+		p     index.Postings
+		cl    func()
+		l     int
+		read  int
+		same  bool
+		done  bool
+		close bool
+	}
+	var decs []*dec
+	var evsCoq []string
+	step := func(d *dec) bool {
+		if d.p.Next() {
+			if d.read >= len(lists[d.l]) || uint64(d.p.At()) != lists[d.l][d.read] {
+				d.same = false
+			}
+			d.read++
+			return true
+		}
+		d.done = true
+		return false
+	}
+	maxLive, live := 0, 0
+	for _, e := range in.Evs {
+		switch {
+		case e.New != nil && *e.New >= 0 && *e.New < len(lists):
+			p, cl, err := store.VerifC12DecodePostings(encs[*e.New])
+			if err != nil {
+				return c, fmt.Errorf("decode: %w", err)
+			}
+			decs = append(decs, &dec{p: p, cl: cl, l: *e.New, same: true})
+			evsCoq = append(evsCoq, common.App("HNew", common.Nat(*e.New)))
+			live++
+			if live > maxLive {
+				maxLive = live
+			}
+		case e.Next != nil && e.Next[0] >= 0 && e.Next[0] < len(decs) && !decs[e.Next[0]].close && e.Next[1] >= 0:
+			d := decs[e.Next[0]]
+			for k := 0; k < e.Next[1] && !d.done; k++ {
+				step(d)
+			}
+			evsCoq = append(evsCoq, common.App("HNext", common.Nat(e.Next[0]), common.N(uint64(e.Next[1]))))
+		case e.Exhaust != nil && *e.Exhaust >= 0 && *e.Exhaust < len(decs) && !decs[*e.Exhaust].close:
+			d := decs[*e.Exhaust]
+			for !d.done && step(d) {
+			}
+			evsCoq = append(evsCoq, common.App("HExhaust", common.Nat(*e.Exhaust)))
+		case e.Close != nil && *e.Close >= 0 && *e.Close < len(decs) && !decs[*e.Close].close:
+			d := decs[*e.Close]
+			d.cl()
+			d.close = true
+			live--
+			evsCoq = append(evsCoq, common.App("HClose", common.Nat(*e.Close)))
+		}
+	}
+	var outs []string
+	type ob struct {
+		List int  `json:"list"`
+		Read int  `json:"read"`
+		Same bool `json:"equals_original"`
+		Err  bool `json:"err"`
+	}
+	var obs []ob
+	for i, d := range decs {
+		e := d.p.Err() != nil
+		outs = append(outs, common.Tuple(common.N(uint64(d.read)), common.Bool(d.same), common.Bool(e)))
+		obs = append(obs, ob{d.l, d.read, d.same, e})
+		if (!d.same || e) && c.GoPred == "" {
+			c.GoPred = fmt.Sprintf("decoder %d (list %d) returned values that differ from its original list (read %d, err=%v)", i, d.l, d.read, e)
+			c.Sig = "pooled-decoders-interfere"
+		}
+		if !d.close { // leave the pools as we found them
+			d.cl()
+		}
+	}
+	c.Coq = common.App("CHist", common.List(listsCoq), common.List(evsCoq), common.List(outs))
+	c.Obs = map[string]any{"decoders": obs, "compressed_chunks": compressed, "max_live_decoders": maxLive}
+	c.Class = "hist"
+	c.Nontrivial = compressed > 0 && maxLive >= 2
+	return c, nil
+}
+
 // encodeFailed: an encoder refused a sorted list, or the three encoders do not
 // agree on refusing this list. Reported as a failing case (raw = None).
 func encodeFailed(c common.Case, l []uint64, sorted bool, e0, e1, e2 error) common.Case {
@@ -694,6 +860,62 @@ func gen(r *rand.Rand, tier string, n int) []any {
 			}
 			out = append(out, in)
 		}
+	}
+	// histories of pooled streamed decoders
+	nh := n / 12
+	for i := 0; i < nh; i++ {
+		in := input{Kind: "hist"}
+		nl := 2 + r.Intn(3)
+		for j := 0; j < nl; j++ {
+			k := 1 + r.Intn(3)
+			pat := make([]uint64, k)
+			for x := range pat {
+				pat[x] = uint64(1 + r.Intn(40))
+			}
+			in.Lists = append(in.Lists, hlist{Start: uint64(r.Intn(5000)), Pattern: pat, Reps: 100 + r.Intn(700)})
+		}
+		ip := func(v int) *int { return &v }
+		nd := 0
+		open := []int{}
+		// a decoder read to the end and closed (what every request does) ...
+		warm := 1 + r.Intn(2)
+		for w := 0; w < warm; w++ {
+			in.Evs = append(in.Evs, hevent{New: ip(r.Intn(nl))}, hevent{Exhaust: ip(nd)}, hevent{Close: ip(nd)})
+			nd++
+		}
+		// ... then several decoders alive at the same time, consumed interleaved
+		k := 2 + r.Intn(3)
+		for j := 0; j < k; j++ {
+			in.Evs = append(in.Evs, hevent{New: ip(r.Intn(nl))})
+			open = append(open, nd)
+			nd++
+		}
+		for st := 0; st < 6+r.Intn(20) && len(open) > 0; st++ {
+			x := r.Intn(len(open))
+			d := open[x]
+			switch r.Intn(10) {
+			case 0:
+				in.Evs = append(in.Evs, hevent{Exhaust: ip(d)})
+			case 1:
+				in.Evs = append(in.Evs, hevent{Close: ip(d)})
+				open = append(open[:x], open[x+1:]...)
+			case 2:
+				in.Evs = append(in.Evs, hevent{New: ip(r.Intn(nl))})
+				open = append(open, nd)
+				nd++
+			default:
+				in.Evs = append(in.Evs, hevent{Next: &[2]int{d, 1 + r.Intn(300)}})
+			}
+		}
+		for _, d := range open {
+			if r.Intn(2) == 0 {
+				in.Evs = append(in.Evs, hevent{Exhaust: ip(d)})
+			}
+		}
+		for _, d := range open {
+			in.Evs = append(in.Evs, hevent{Close: ip(d)})
+		}
+		out = append(out, in)
 	}
 	// lists whose diff-varint bytes cross the 65536-byte block of the real snappy
 	// stream writer (the chunk boundary falls wherever it falls, also inside a varint)
